@@ -26,6 +26,15 @@ type c02Cfg struct {
 	Gas        []uint64
 	MaxProofs  int64
 	Sparse     bool // skip heights at which nothing can happen (large windows)
+	Others     []c02Other
+}
+
+// c02Other is a further file of the same owner, posted Delay blocks after the main file (so its proof
+// windows are out of phase with the main file's), which the same honest provider proves once per window.
+type c02Other struct {
+	Delay   int64
+	Size    int64
+	Offsets []int64 // proof offset inside window i of that file
 }
 
 type c02Out struct {
@@ -33,6 +42,7 @@ type c02Out struct {
 	edge       bool // a reward block judged a non-young file whose last proof lay in the previous window
 	dropped    bool // file vanished before the prover could join (nothing asserted)
 	proofs     int
+	others     int // further files posted and proven by the same honest provider
 	rewardSeen int
 	trace      []string
 }
@@ -70,12 +80,14 @@ func c02Run(c *chain.Chain, cfg c02Cfg) (out c02Out) {
 	}
 	type honest struct {
 		acc          chain.Account
+		f            *sFile
+		start        int64
 		join         int64
 		offsets      []int64
 		joined       bool
 		lastAccepted int64
 	}
-	provers := []*honest{{acc: prover, join: cfg.JoinWindow, offsets: cfg.Offsets, lastAccepted: -1}}
+	provers := []*honest{{acc: prover, f: f, start: cfg.S, join: cfg.JoinWindow, offsets: cfg.Offsets, lastAccepted: -1}}
 	if cfg.JoinWindow > 0 && cfg.MaxProofs >= 2 {
 		// a second honest holder keeps the file alive from window 0 on (it is held to the same standard)
 		helper := chain.Acc(2)
@@ -86,12 +98,12 @@ func c02Run(c *chain.Chain, cfg c02Cfg) (out c02Out) {
 		for i := range offs {
 			offs[i] = int64(i) % cfg.W
 		}
-		provers = append(provers, &honest{acc: helper, join: 0, offsets: offs, lastAccepted: -1})
+		provers = append(provers, &honest{acc: helper, f: f, start: cfg.S, join: 0, offsets: offs, lastAccepted: -1})
 	}
 	nWin := int64(len(cfg.Offsets))
 	due := func(p *honest, h int64) (int, bool) {
 		for i, off := range p.offsets {
-			if cfg.S+(p.join+int64(i))*cfg.W+off == h {
+			if p.start+(p.join+int64(i))*cfg.W+off == h {
 				return i, true
 			}
 		}
@@ -103,6 +115,11 @@ func c02Run(c *chain.Chain, cfg c02Cfg) (out c02Out) {
 	interesting := func(h int64) bool {
 		if h == cfg.S || h%cfg.C == 0 {
 			return true
+		}
+		for _, o := range cfg.Others {
+			if h == cfg.S+o.Delay {
+				return true
+			}
 		}
 		for _, p := range provers {
 			if _, ok := due(p, h); ok {
@@ -133,18 +150,18 @@ func c02Run(c *chain.Chain, cfg c02Cfg) (out c02Out) {
 						continue
 					}
 					listed := false
-					for _, a := range w.listedProvers(f) {
+					for _, a := range w.listedProvers(p.f) {
 						if a == p.acc.Bech {
 							listed = true
 						}
 					}
-					young := cfg.S+cfg.W >= h
-					curWin := (h - cfg.S) / cfg.W
-					if !young && p.lastAccepted >= 0 && (p.lastAccepted-cfg.S)/cfg.W == curWin-1 {
+					young := p.start+cfg.W >= h
+					curWin := (h - p.start) / cfg.W
+					if !young && p.lastAccepted >= 0 && (p.lastAccepted-p.start)/cfg.W == curWin-1 {
 						out.edge = true
 					}
 					if !listed {
-						out.sig, out.msg = "C02/honest-prover-removed", fmt.Sprintf("reward block at height %d removed %s although it proved in every window (last accepted proof at %d, file start %d, window %d)", h, short(p.acc.Bech), p.lastAccepted, cfg.S, cfg.W)
+						out.sig, out.msg = "C02/honest-prover-removed", fmt.Sprintf("reward block at height %d removed %s from file %s although it proved in every window (last accepted proof at %d, file start %d, window %d)", h, short(p.acc.Bech), p.f.id(), p.lastAccepted, p.start, cfg.W)
 						return
 					}
 					if b, found := w.burned(p.acc.Bech); !found || b != "0" {
@@ -154,7 +171,19 @@ func c02Run(c *chain.Chain, cfg c02Cfg) (out c02Out) {
 				}
 			}
 		}
+		for k, o := range cfg.Others {
+			if h != cfg.S+o.Delay || o.Delay == 0 {
+				continue
+			}
+			of, r := w.postFile(owner, append([]byte{byte(200 + k)}, c02Content(o.Size)...), 1, 0)
+			if !r.OK() {
+				return c02Out{sig: "C02/harness", msg: "post of a further file failed: " + r.String()}
+			}
+			provers = append(provers, &honest{acc: prover, f: of, start: h, join: 0, offsets: o.Offsets, lastAccepted: -1})
+			out.others++
+		}
 		for _, p := range provers {
+			f := p.f
 			if _, ok := due(p, h); !ok {
 				continue
 			}
@@ -225,18 +254,29 @@ func genC02(rt *rapid.T) c02Cfg {
 		cfg.Offsets = append(cfg.Offsets, off)
 		cfg.Gas = append(cfg.Gas, rapid.OneOf(rapid.Just(uint64(0)), rapid.Uint64Range(0, 1<<40)).Draw(rt, fmt.Sprintf("gas%d", i)))
 	}
+	// further files of the same owner, out of phase with the main one, proven by the same provider in each of their windows
+	for k, n := 0, rapid.SampledFrom([]int{0, 0, 1, 2}).Draw(rt, "otherFiles"); k < n; k++ {
+		o := c02Other{Delay: rapid.Int64Range(1, 2*cfg.W).Draw(rt, fmt.Sprintf("otherDelay%d", k)), Size: rapid.Int64Range(1, 3*cfg.ChunkSize).Draw(rt, fmt.Sprintf("otherSize%d", k))}
+		for i := 0; i < len(cfg.Offsets)+int(cfg.JoinWindow)+2; i++ {
+			o.Offsets = append(o.Offsets, rapid.OneOf(rapid.Just(int64(0)), rapid.Just(cfg.W-1), rapid.Int64Range(0, cfg.W-1)).Draw(rt, fmt.Sprintf("otherOffset%d_%d", k, i)))
+		}
+		cfg.Others = append(cfg.Others, o)
+	}
 	return cfg
 }
 
 func TestC02(t *testing.T) {
 	rec := ev.For("C02")
-	rec.Describe("fork-mode schedules: file of 1..6*chunk+rest bytes (all residues incl. exact multiples and 1-byte files), chunk size 1..64 or 1024, proof window W and check window C in [2,24], file start S in [1,3WC], an honest registered provider joining in window 0 or 1 and proving once per file window at generated offsets (0, W-1 and 'same height as a reward block' weighted up) with generated block-gas seeds for the next challenge, run through the window after the last proof. Oracle: every challenge < ceil(size/chunk); every honest proof (tree built from the property's leaf encoding, cross-checked with utils.BuildTree's root) gets Success=true; after every reward block the prover is still listed and its BurnedContracts is \"0\". Thorough tier additionally enumerates exhaustively W,C in [2,9], S in [1,WC], join window {0,1}, three windows with offsets {0, W/2, W-1}. Non-trivial = a reward block judged the non-young file while the last accepted proof lay in the previous window; distinct = distinct configurations.",
+	rec.Describe("fork-mode schedules: file of 1..6*chunk+rest bytes (all residues incl. exact multiples and 1-byte files), chunk size 1..64 or 1024, proof window W and check window C in [2,24], file start S in [1,3WC], an honest registered provider joining in window 0 or 1 and proving once per file window at generated offsets (0, W-1 and 'same height as a reward block' weighted up) with generated block-gas seeds for the next challenge, run through the window after the last proof; in half of the schedules the same provider also proves, once per window, one or two further files posted 1..2W blocks later (windows out of phase). Oracle: every challenge < ceil(size/chunk); every honest proof (tree built from the property's leaf encoding, cross-checked with utils.BuildTree's root) gets Success=true; after every reward block the prover is still listed and its BurnedContracts is \"0\". Thorough tier additionally enumerates exhaustively W,C in [2,9], S in [1,WC], join window {0,1}, three windows with offsets {0, W/2, W-1}. Non-trivial = a reward block judged the non-young file while the last accepted proof lay in the previous window; distinct = distinct configurations.",
 		"the owner holds a plan bought by a real BuyStorage; CollateralPrice lowered by parameter change so the provider can register")
 	c := chain.New(chain.GenesisOpts{NumAccounts: 3, Balance: sdk.NewCoins(sdk.NewInt64Coin("ujkl", 1_000_000_000_000))})
 	defer c.Close()
 
 	record := func(cfg c02Cfg, o c02Out) {
 		rec.Count(fmt.Sprintf("proofs=%d", o.proofs))
+		if o.others > 0 {
+			rec.Count(fmt.Sprintf("further-files=%d", o.others))
+		}
 		if o.dropped {
 			rec.Count("file-dropped-before-join")
 		}
